@@ -62,6 +62,8 @@ KeyRoots == {Obj(<<SC("@t0", One)>>, <<>>), Obj(<<P(Kr, Ref(<<"@t0">>, <<>>)), S
              \* a type named inside an or rule set next to another rule (the rule set becomes an unnamed type of its own): used names
              Lit(NumD(N1), <<R("or", [t |-> "list", items |-> <<[t |-> "set", rules |-> <<R("type", TRef("@t0")), R("nullable", BV(TRUE))>>], TRef("@t1"), IdV("integer")>>])>>),
              Obj(<<P(Ka, Lit(NumD(N1), <<R("or", [t |-> "list", items |-> <<[t |-> "set", rules |-> <<R("type", TRef("@t1")), R("nullable", BV(TRUE))>>], IdV("integer")>>])>>))>>, <<>>),
+             \* a type named both by a value and inside a rule set: listed once
+             Obj(<<P(Ka, Ref(<<"@t0">>, <<>>)), P(Kb, Lit(NumD(N1), <<R("or", [t |-> "list", items |-> <<[t |-> "set", rules |-> <<R("type", TRef("@t0")), R("nullable", BV(TRUE))>>], IdV("integer")>>])>>))>>, <<>>),
              \* two rule sets that each name a type (two unnamed types): the used names come in the order of the text
              Lit(NumD(N1), <<R("or", [t |-> "list", items |-> <<[t |-> "set", rules |-> <<R("type", TRef("@t1")), R("nullable", BV(TRUE))>>],
                                                                 [t |-> "set", rules |-> <<R("type", TRef("@t0")), R("nullable", BV(TRUE))>>], IdV("integer")>>])>>),
